@@ -506,3 +506,20 @@ package gozxing
 //@   property C17
 //@   ensures min <= max ==> min <= r && r <= max && (min <= value && value <= max ==> r == value)
 //@   modifies nothing
+
+// Rotate180, narrow contract: matrices of one row that fit one word (width 1..32): the row is reversed and the padding stays clear.
+// (The general statement get'(x, y) == get(w-1-x, h-1-y) for multi-word rows is not under contract.)
+//@ func (b *BitMatrix) Rotate180()
+//@   property C16 C09
+//@   mode bv
+//@   requires b.width >= 1 && b.width <= 32 && b.height == 1 && b.rowSize == 1 && len(b.bits) == 1
+//@   requires forall x int :: b.width <= x && x < 32 ==> !wordbit(b.bits[0], x)
+//@   ensures forall x int :: 0 <= x && x < b.width ==> wordbit(b.bits[0], x) == old(wordbit(b.bits[0], b.width - 1 - x))
+//@   ensures forall x int :: b.width <= x && x < 32 ==> !wordbit(b.bits[0], x)
+//@   modifies b.bits[*]
+//@   loop 0: invariant i == 0 && len(b.bits) == 1 && b.bits[0] == old(b.bits[0])
+//@   loop 1: invariant false
+//@   loop 2: invariant j == 0 && offset == 0 && len(b.bits) == 1 && b.bits[0] == old(b.bits[0])
+//@   loop 3: invariant 0 <= i && i <= 1 && height == 1 && rowSize == 1 && len(b.bits) == 1 && shift == uint(b.width % 32) && shift != 0 && (i == 0 ==> b.bits[0] == old(b.bits[0])) && (i == 1 ==> b.bits[0] == reverse32(old(b.bits[0])) >> uint(32 - b.width % 32))
+//@   loop 4: invariant j == 1 && i == 0 && len(b.bits) == 1 && b.bits[0] == reverse32(old(b.bits[0])) >> uint(32 - b.width % 32) && height == 1 && rowSize == 1 && shift == uint(b.width % 32) && shift != 0
+//@   loop 5: invariant -1 <= rangeindex && rangeindex <= 0 && len(b.bits) == 1 && (rangeindex == -1 ==> b.bits[0] == old(b.bits[0])) && (rangeindex == 0 ==> b.bits[0] == reverse32(old(b.bits[0])))
